@@ -299,6 +299,13 @@ func validateMutationAtomic(atype string, mutator Mutator, value interface{}) er
 		return NewErrWrongType(fmt.Sprintf("Mutation of atomic type %s", atype), nType.String(), value)
 	}
 
+	// RFC7047: division or modulo by zero is a domain error
+	if mutator == MutateOperationDivide || mutator == MutateOperationModulo {
+		if reflect.ValueOf(value).IsZero() && (atype == TypeInteger || atype == TypeReal) {
+			return &DomainError{details: fmt.Sprintf("mutation %s by zero", mutator)}
+		}
+	}
+
 	switch atype {
 	case TypeUUID, TypeString, TypeBoolean:
 		return fmt.Errorf("atomictype %s does not support mutation", atype)
